@@ -346,6 +346,81 @@ def run_cell(impl, via, cell, out):
 
 
 
+# ------------------------------------------------------------------ histories of rejections on one server
+
+BIG = {'error': 'not allowed', 'detail': 'x' * 1400}
+REJ_VALUES = {'big': BIG, 'text': 'no', 'false': False, 'dict': {'a': 1}}
+
+
+class _ByHeader(base.Behaviour):
+    """Connect handler that rejects with the value the request names (header X-Verdict)."""
+    def connect(self, sid, environ):
+        return [('return', REJ_VALUES[environ.get('HTTP_X_VERDICT', 'false')])]
+
+
+def reject_histories(thorough):
+    letters = [(v, ae) for v in ('big', 'text', 'false') for ae in (None, 'gzip', 'deflate')]
+    out = []
+    for n in (1, 2, 3) if thorough else (1, 2):
+        out += [list(h) for h in itertools.product(letters, repeat=n)]
+    if not thorough:
+        out += [[('big', 'gzip'), ('big', 'gzip'), ('false', None)], [('text', None), ('big', 'deflate'), ('dict', 'gzip')]]
+    return out
+
+
+def _decode_answer(r):
+    import gzip
+    import zlib
+    ce = [v for k, v in (r.resp_headers or []) if k.lower() == 'content-encoding']
+    body = r.body or b''
+    if len(ce) > 1:
+        return ce, ('<undecodable>', 'several Content-Encoding headers')
+    try:
+        if ce == ['gzip']:
+            body = gzip.decompress(body)
+        elif ce == ['deflate']:
+            body = zlib.decompress(body)
+        elif ce:
+            return ce, ('<undecodable>', 'unknown coding')
+        return ce, json.loads(body.decode('utf-8'))
+    except Exception as e:      # noqa: BLE001 - whatever an HTTP client would fail with
+        return ce, ('<undecodable>', '%s: %s' % (type(e).__name__, e))
+
+
+def run_reject_history(impl, hist, out):
+    """A sequence of rejected opens on one server: each 401 carries its own value, readable by the client that asked."""
+    w = peer.make_world(impl, behaviour=_ByHeader())
+    try:
+        for k, (verdict, ae) in enumerate(hist):
+            h = {'X-Verdict': verdict}
+            if ae:
+                h['Accept-Encoding'] = ae
+            r = w.http('GET', peer.BASEQ, headers=h)
+            w.run()
+            trig = 'history/%s' % ('first' if k == 0 else 'later')
+            cell = {'history': hist, 'step': k}
+            if r.exc or not r.done:
+                out.append(_viol(impl, 'exception_escaped' if r.exc else 'open_not_answered', trig,
+                                 'rejected open #%d: exc=%r done=%s' % (k + 1, r.exc, r.done), cell, 'polling'))
+                return 'bad'
+            ce, got = _decode_answer(r)
+            want = REJ_VALUES[verdict] or 'Unauthorized'
+            if r.status != 401:
+                out.append(_viol(impl, 'reject_status', trig, 'rejected open #%d answered %r' % (k + 1, r.status), cell, 'polling'))
+            elif ce and (ae is None or ce[0] != ae):
+                out.append(_viol(impl, 'reject_body', trig, '401 #%d carries Content-Encoding %r, the request accepted %r'
+                                 % (k + 1, ce, ae), cell, 'polling'))
+            elif got != want:
+                out.append(_viol(impl, 'reject_body', trig, '401 #%d (Content-Encoding %r) decodes to %r, want the handler value %r'
+                                 % (k + 1, ce, got if not isinstance(got, dict) else sorted(got), want if not isinstance(want, dict) else sorted(want)),
+                                 cell, 'polling'))
+            if w.table_sids():
+                out.append(_viol(impl, 'rejected_sid_addressable', trig, 'session table %r after rejection #%d' % (w.table_sids(), k + 1), cell, 'polling'))
+        return 'reject_history'
+    finally:
+        w.teardown()
+
+
 # ------------------------------------------------------------------ overlapping opens (schedule search)
 
 VERDICTS = {'accept': [], 'false': [('return', False)], 'text': [('return', 'no')], 'raise': [('raise', 'boom')]}
@@ -461,7 +536,10 @@ def _work(chunk):
     n = 0
     for impl, via, cell in chunk:
         try:
-            k = run_cell(impl, via, cell, out)
+            if via == 'reject_history':
+                k = run_reject_history(impl, cell, out)
+            else:
+                k = run_cell(impl, via, cell, out)
         except report.Livelock as e:
             out.append(report.livelock_violation(impl, e, {'impl': impl, 'via': via, 'cell': cell}))
             k = 'livelock'
@@ -475,6 +553,8 @@ def run(ctx):
     cs = cells(not ctx.quick)
     jobs = [(impl, via, c) for c in cs for impl in ('sync', 'async') for via in ('polling', 'websocket')
             if not (via == 'websocket' and c['jsonp'])]
+    hs = reject_histories(not ctx.quick)
+    jobs += [(impl, 'reject_history', h) for h in hs for impl in ('sync', 'async')]
     res = parallel.pmap_chunks(_work, parallel.split(jobs, ctx.workers * 4), ctx.workers, ctx.seed, maxtasks=8)
     kinds = {}
     n = 0
@@ -499,9 +579,10 @@ def run(ctx):
         'distinct_nontrivial': n - kinds.get('skipped', 0),
         'rule': 'configuration cells: timing %dx%dx%d, upgrades 2x4x2, cookie 7x2, connect outcome 9x2 as '
                 'sub-products with the other dimensions at default%s; each on Server and AsyncServer, polling and '
-                'WebSocket opens; plus overlapping opens (two or three clients opening at once, connect handlers that take 1/8 s for some of them, verdicts {accept, False, text, raise} per client: every interleaving and a bounded number of deviations - each open is honoured on its own, rejected ids are unaddressable and accepted ones usable). Non-trivial = cells whose opening transport is allowed (others are skipped).'
+                'WebSocket opens; plus %d histories of 1..%d rejected opens on one server (value big enough to be compressed / text / False x Accept-Encoding none / gzip / deflate): every 401 decodes, by its own headers, to the value its handler returned; plus overlapping opens (two or three clients opening at once, connect handlers that take 1/8 s for some of them, verdicts {accept, False, text, raise} per client: every interleaving and a bounded number of deviations - each open is honoured on its own, rejected ids are unaddressable and accepted ones usable). Non-trivial = cells whose opening transport is allowed (others are skipped).'
                 % (len(INTERVALS), len(TIMEOUTS), len(BUFS),
-                   '' if ctx.quick else '; plus the full product on a reduced grid (3x2 timing, 2x4x2 upgrades, 4 cookies, 9 outcomes, jsonp)'),
+                   '' if ctx.quick else '; plus the full product on a reduced grid (3x2 timing, 2x4x2 upgrades, 4 cookies, 9 outcomes, jsonp)',
+                   len(hs), 2 if ctx.quick else 3),
         'samples': [cs[0], cs[len(cs) // 2], cs[-1]],
         'exhaustive': True,
         'cells': len(cs), 'outcomes': kinds,
